@@ -1,5 +1,6 @@
 (* C17 - restart() yields a fresh, equivalent, live worker - or raises.
    Model: PoolLife/Model.v [restart_w] (PersistentWorker.restart over the control model Ctrl/Model.v). *)
+From PW Require PoolLife.Restart Gen.Restart.
 From PW Require Import Ctrl.Model Ctrl.Proofs PoolLife.Model PoolLife.Proofs.
 
 (* For every kind, every state of the old incarnation reachable by any history of is_alive / wait / terminate /
@@ -53,6 +54,54 @@ Proof.
   destruct (restart_all_safe t (workers p) news p S Hc (safe_wok _ S)) as [X _]. exact X.
 Qed.
 
+(* "... an equivalent worker: the same target, defaults, name and userid".  Gen/Restart.v is REGENERATED from
+   Worker.__init__ (how every constructor option is stored) and from Worker._get_restart_args / RemoteWorker._get_restart_args
+   (which stored field is handed to which parameter of the next incarnation).  For EVERY choice of constructor arguments -
+   None, falsy values such as userid 0, set_names False, run False, init_state 0, empty args - the next incarnation, built
+   from those restart arguments, remembers exactly the same configuration (the user state: the last synchronised one). *)
+Theorem C17_restart_arguments_rebuild_the_same_configuration :
+  PoolLife.Restart.equivalent_after_restart Gen.Restart.gen_stores Gen.Restart.gen_forward.
+Proof.
+  intros a f Hin. cbn in Hin.
+  repeat (destruct Hin as [<-|Hin]); try contradiction;
+    cbv [PoolLife.Restart.stored PoolLife.Restart.restart_env Gen.Restart.gen_stores Gen.Restart.gen_forward find
+         PoolLife.Restart.field_eqb PoolLife.Restart.param_eqb fst snd PoolLife.Restart.eval];
+    try reflexivity.
+  - destruct (a PoolLife.Restart.PArgs); reflexivity.
+  - destruct (a PoolLife.Restart.PKwargs); reflexivity.
+  - destruct (a PoolLife.Restart.PRun); try reflexivity. destruct (PoolLife.Restart.truthy (a PoolLife.Restart.PTarget)); reflexivity.
+Qed.
+
+Theorem C17_remote_restart_arguments_rebuild_the_same_configuration :
+  PoolLife.Restart.equivalent_after_restart (Gen.Restart.gen_stores ++ Gen.Restart.gen_remote_stores)
+                                            (Gen.Restart.gen_forward ++ Gen.Restart.gen_remote_forward).
+Proof.
+  intros a f Hin. cbn in Hin.
+  repeat (destruct Hin as [<-|Hin]); try contradiction;
+    cbv [PoolLife.Restart.stored PoolLife.Restart.restart_env Gen.Restart.gen_stores Gen.Restart.gen_forward
+         Gen.Restart.gen_remote_stores Gen.Restart.gen_remote_forward app find
+         PoolLife.Restart.field_eqb PoolLife.Restart.param_eqb fst snd PoolLife.Restart.eval];
+    try reflexivity.
+  - destruct (a PoolLife.Restart.PArgs); reflexivity.
+  - destruct (a PoolLife.Restart.PKwargs); reflexivity.
+  - destruct (a PoolLife.Restart.PRun); try reflexivity. destruct (PoolLife.Restart.truthy (a PoolLife.Restart.PTarget)); reflexivity.
+  - destruct (a PoolLife.Restart.PHost); reflexivity.
+  - destruct (a PoolLife.Restart.PMainPath); reflexivity.
+Qed.
+
+(* the regression this rules out: forwarding only the options whose value is truthy loses userid 0, run False, ... *)
+Definition restart_env_truthy_only (stores : list (PoolLife.Restart.field * PoolLife.Restart.sexpr))
+           (forward : list (PoolLife.Restart.param * PoolLife.Restart.field)) (a : PoolLife.Restart.env) : PoolLife.Restart.env :=
+  fun p => let v := PoolLife.Restart.restart_env stores forward a p in if PoolLife.Restart.truthy v then v else PoolLife.Restart.VNone.
+
+Theorem C17_refuted_if_only_truthy_options_are_forwarded :
+  exists a f, PoolLife.Restart.stored Gen.Restart.gen_stores (restart_env_truthy_only Gen.Restart.gen_stores Gen.Restart.gen_forward a) f
+              <> PoolLife.Restart.stored Gen.Restart.gen_stores a f.
+Proof.
+  exists (fun p => match p with PoolLife.Restart.PUserid => PoolLife.Restart.VFalsy 0 | _ => PoolLife.Restart.VTruthy 1 end), PoolLife.Restart.FUserid.
+  vm_compute. discriminate.
+Qed.
+
 Example C17_example_thread_that_cannot_be_stopped :
   snd (restart_w TFin 1 Coop (mkWk 0 KPersistentThread (fresh Swallows))) = None
   /\ snd (restart_w TFin 1 Coop (mkWk 0 KPersistentProcess (fresh Stopped))) <> None.
@@ -61,3 +110,6 @@ Proof. vm_compute. split; [reflexivity|discriminate]. Qed.
 Print Assumptions C17_restart_replaces_only_a_dead_child.
 Print Assumptions C17_process_restart_never_raises.
 Print Assumptions C17_restart_workers_lets_go_of_dead_workers_only.
+Print Assumptions C17_restart_arguments_rebuild_the_same_configuration.
+Print Assumptions C17_remote_restart_arguments_rebuild_the_same_configuration.
+Print Assumptions C17_refuted_if_only_truthy_options_are_forwarded.
